@@ -12,5 +12,7 @@ RULES = {"C09.a", "C09.b", "C09.c", "C09.d", "C09.e", "C09.f"}
 def check(ctx):
     ctx.assume("set_offset is only called with offsets on character boundaries that were already scanned (property quantifier)")
     cursor.analyze(ctx, RULES)
+    from . import adaptors
+    adaptors.analyze(ctx, ("C09.g",))
     from .common import cache_foundation
     cache_foundation(ctx)
